@@ -103,6 +103,8 @@ class Library(object):
         self._init_registry()
         from . import fsmodel
         fsmodel.register(self)
+        from . import argmodel
+        argmodel.install(self)
 
     # ------------------------------------------------------------------
     def _builtin_cls(self, name, kind):
@@ -333,6 +335,9 @@ class Library(object):
 
     def value_attr(self, o, name):
         from .interp import _MISSING as M
+        from . import argmodel
+        if isinstance(o, (argmodel.ArgParserV, argmodel.ActionV)):
+            return argmodel.value_attr(self, o, name)
         if isinstance(o, str) or (is_sym(o) and o.ty == 'str') or \
                 isinstance(o, StrSubObj):
             m = getattr(self, 'str_' + name, None)
@@ -1245,6 +1250,8 @@ class Library(object):
         v = a[0]
         if isinstance(v, (list, tuple, dict, str, frozenset)):
             return len(v)
+        if isinstance(v, SetV):
+            return len(v.items)
         if isinstance(v, TupleObj):
             return len(v.items)
         if _is_str(v) or _is_bytes(v):
